@@ -76,6 +76,7 @@ class PlainPayload:
     ret: str = "wrapped"
     chain: str | None = None
     deep: int = 0
+    raises_late: tuple | None = None
 
     def raises(self):
         return tuple(EXC[n] for n in self.raises_names)
@@ -95,6 +96,7 @@ def _visual_payload_class():
         ret: str = "wrapped"
         chain: str | None = None
         deep: int = 0
+        raises_late: tuple | None = None
 
         def raises(self):
             return tuple(EXC[n] for n in self.raises_names)
@@ -147,6 +149,9 @@ def work(payload, *args, **kwargs):
         _raise(p["exc"], p["exc_args"], p.get("chain"))
     if getattr(payload, "deep", 0):
         _recurse(payload.deep)  # a recursive-descent job on deeply nested input
+    late = getattr(payload, "raises_late", None)
+    if late is not None:
+        payload.raises_names = tuple(late)  # e.g. a pragma found in the input decides which errors are to be captured
     if payload.behave == "ok":
         return payload.value if getattr(payload, "ret", None) == "raw" else [payload.value, list(args), sorted(kwargs.items())]
     _raise(payload.exc, payload.exc_args, getattr(payload, "chain", None))
@@ -203,6 +208,10 @@ def gen_spec(seed: int, config: str | None = None) -> dict:
                 pool_ex.append("TypeError")
             p["exc"] = rng.choice(pool_ex)
             p["exc_args"] = rng.choice([[], [f"boom{k}"], ["two", k], [f"e{k}", k, None]])
+            if p["raises"] and p["cls"] == "plain" and rng.random() < 0.15:
+                # the declaration depends on state that the function changes before it fails
+                p["raises_late"] = list(p["raises"])
+                p["raises"] = [rng.choice(["OSError", "ZeroDivisionError", "CustomParseError"])]
             if rng.random() < 0.25:
                 # wrapped low-level error: `raise X from Y` (explicit cause) or raised while handling Y (implicit context)
                 p["chain"] = rng.choice(["cause", "cause", "context"]) + ":" + rng.choice(["ValueError", "KeyError", "OSError", "ZeroDivisionError"])
@@ -274,7 +283,8 @@ def is_captured(spec: dict, p: dict) -> bool:
     ecls = EXC[p["exc"]]
     if issubclass(ecls, RuntimeError):
         return False
-    rs = [EXC[n] for n in p["raises"]]
+    names = p["raises"] if p.get("raises_late") is None else p["raises_late"]  # what raises() says when the exception occurs
+    rs = [EXC[n] for n in names]
     if rs and not any(issubclass(ecls, r) for r in rs):
         return False
     return True
@@ -314,7 +324,8 @@ def build_payloads(spec: dict):
         path = Path(f"/sim/file{p['key']:02d}.txt")
         text = f"line {p['key']}\n// c\n\n"
         kw = dict(key=p["key"], behave=p["behave"], value=p["value"], exc=p["exc"],
-                  exc_args=tuple(p["exc_args"]), raises_names=tuple(p["raises"]), ret=p.get("ret", "wrapped"), chain=p.get("chain"), deep=p.get("deep", 0))
+                  exc_args=tuple(p["exc_args"]), raises_names=tuple(p["raises"]), ret=p.get("ret", "wrapped"), chain=p.get("chain"), deep=p.get("deep", 0),
+                  raises_late=None if p.get("raises_late") is None else tuple(p["raises_late"]))
         if p["cls"] == "visual":
             out.append(VisPayload(path=path, payload=text, **kw))
         else:
@@ -711,6 +722,10 @@ def shrink_candidates(spec: dict):
         if p.get("chain"):
             s = copy.deepcopy(spec)
             s["payloads"][i].pop("chain")
+            yield s
+        if p.get("raises_late") is not None:
+            s = copy.deepcopy(spec)
+            s["payloads"][i]["raises"] = s["payloads"][i].pop("raises_late")
             yield s
     for key, simple in (("entry", "parproc"), ("pool", "process"), ("pickle", False), ("pickable", "identity"),
                         ("extra_args", []), ("extra_kwargs", {}), ("summary", False), ("verbose", False)):
